@@ -17,9 +17,10 @@ chains exactly as they were.
 import PyFatModel.Proofs.FsFat
 import PyFatModel.Proofs.FsRefine
 import PyFatModel.Proofs.FsSync
+import PyFatModel.Proofs.FsShape
 
 namespace Proofs.FsInv
-open Model.Fs Model.Alloc Proofs.FatRep Proofs.FatMachine Proofs.FsTree Proofs.FsFat Proofs.FsSync
+open Model.Fs Model.Alloc Proofs.FatRep Proofs.FatMachine Proofs.FsTree Proofs.FsFat Proofs.FsSync Proofs.FsShape
 
 /-! ## tree surgery -/
 
@@ -407,10 +408,18 @@ theorem updateDir_of_fits {v : Vol} {count : Nat} {s : St} {loc : Loc} {extra : 
 /-- what every call guarantees: the invariant afterwards, and after out-of-space the same tree, sizes and chains -/
 def Good (v : Vol) (count : Nat) (s : St) (out : St × Res) : Prop :=
   Inv v count out.1 ∧ (Proofs.FsRefine.Soft out.2 → out.1.nodes = s.nodes ∧ out.1.rootChain = s.rootChain) ∧
-    (Sync s → Sync out.1)
+    (Sync s → Sync out.1) ∧ (ShapeNodes v.bpc s.nodes → ShapeNodes v.bpc out.1.nodes)
 
 theorem good_same {v : Vol} {count : Nat} {s : St} (h : Inv v count s) (r : Res) : Good v count s (s, r) :=
-  ⟨h, fun _ => ⟨rfl, rfl⟩, fun hs => hs⟩
+  ⟨h, fun _ => ⟨rfl, rfl⟩, fun hs => hs, fun hs => hs⟩
+
+theorem shape_append {b : Nat} {nodes : List Node} {n : Node} (h : ShapeNodes b nodes) (hn : n.isDir = false → Shape b n) :
+    ShapeNodes b (nodes ++ [n]) := by
+  intro x hx hxd
+  rw [List.mem_append, List.mem_singleton] at hx
+  rcases hx with hx | rfl
+  · exact h x hx hxd
+  · exact hn hxd
 
 theorem sync_flush {s : St} (hs : Sync s) : Sync (flush s) := ⟨rfl, hs.disk⟩
 
@@ -592,14 +601,18 @@ theorem removeEntry_good {v : Vol} {count : Nat} (hv : VolOK v count) {s : St} (
   rw [hu]
   simp only
   have hdisk : Sync s → s2.disk.Perm (D s2.nodes) := fun hs => sync_update hs rfl hu (others_erase _ _ _ hpar)
+  have hshape : ShapeNodes v.bpc s.nodes → ShapeNodes v.bpc s2.nodes := by
+    intro hsh x hx hxd
+    rw [e4] at hx
+    exact hsh x (List.mem_of_mem_erase hx) hxd
   split
   · rename_i hc
-    refine ⟨?_, fun hs => absurd hs (not_soft_ok _), fun hs => ⟨by rw [e5, e1]; exact hs.fat, hdisk hs⟩⟩
+    refine ⟨?_, fun hs => absurd hs (not_soft_ok _), fun hs => ⟨by rw [e5, e1]; exact hs.fat, hdisk hs⟩, hshape⟩
     have : opt n.chain = [] := by simp [opt, hc]
     rw [this] at hi2
     exact hi2
   · rename_i hc
-    refine ⟨?_, fun hs => absurd hs (not_soft_ok _), fun hs => ⟨rfl, hdisk hs⟩⟩
+    refine ⟨?_, fun hs => absurd hs (not_soft_ok _), fun hs => ⟨rfl, hdisk hs⟩, hshape⟩
     have hrep := release_rep hv.params hi2.rep hc
     exact ⟨hi2.tree, by simpa [flush, release] using hrep, hi2.rootFixed, hi2.rootChain, hi2.dirs, hi2.fitsRoot, hi2.fitsDir⟩
 
@@ -642,7 +655,8 @@ theorem create_good {v : Vol} {count : Nat} (hv : VolOK v count) {s : St} (h : I
           · rename_i s2 hu
             have := (updateDir_inv hv hx' ((hloc_of_locAt hl hpd).mono (fun d hd _ => List.mem_append_left _ hd)) hu).1
             exact ⟨flush_inv this, fun hs => absurd hs (not_soft_ok _),
-              fun hs => sync_flush_update hs (by rfl) hu (others_append s.nodes ⟨dir ++ [k], ploc.id, k, false, [], 0, slots⟩ ploc.id rfl)⟩
+              fun hs => sync_flush_update hs (by rfl) hu (others_append s.nodes ⟨dir ++ [k], ploc.id, k, false, [], 0, slots⟩ ploc.id rfl),
+              fun hsh => (shape_updateDir hu hpd (shape_append (n := ⟨dir ++ [k], ploc.id, k, false, [], 0, slots⟩) hsh (fun _ => Or.inl ⟨rfl, rfl⟩)) : ShapeNodes v.bpc s2.nodes)⟩
         | some n =>
           obtain ⟨hn, hnp⟩ := Proofs.FsRefine.find_path hf
           have hnpar : n.parent = ploc.id := by
@@ -684,7 +698,8 @@ theorem create_good {v : Vol} {count : Nat} (hv : VolOK v count) {s : St} (h : I
               obtain ⟨s2, hu, hi2, _, _, _, _⟩ := updateDir_fits_good hx' hloc
               rw [hu]
               exact ⟨flush_inv hi2, fun hs => absurd hs (not_soft_ok _),
-                fun hs => sync_flush_update hs hs1d hu (others_replace _ _ _ _ hnpar hnpar)⟩
+                fun hs => sync_flush_update hs hs1d hu (others_replace _ _ _ _ hnpar hnpar),
+                fun hsh => (shape_updateDir hu hpd (shape_replace (o := n) (n := ⟨n.path, n.parent, n.key, false, [], 0, n.slots⟩) hsh (fun _ => Or.inl ⟨rfl, rfl⟩)) : ShapeNodes v.bpc s2.nodes)⟩
 
 /-- a cluster of an owned chain is not zero and not in any other owned chain -/
 theorem fresh_clusters {p : Params} {count : Nat} {fat : List Nat} {a : List Nat} {chains : List (List Nat)}
@@ -750,7 +765,7 @@ theorem makedir_good {v : Vol} {count : Nat} (hv : VolOK v count) {s : St} (h : 
                   rw [← e]; exact clus_mem (h.dirs d hd hdd))⟩)
             split
             · -- the parent could not be written: the new cluster is released again
-              refine ⟨?_, fun _ => ⟨rfl, rfl⟩, fun hs => ?_⟩
+              refine ⟨?_, fun _ => ⟨rfl, rfl⟩, fun hs => ?_, fun hsh => hsh⟩
               · have := free_preserves hv.params inv2
                 exact ⟨h.tree, by simpa [release] using this, h.rootFixed, h.rootChain, h.dirs, h.fitsRoot, h.fitsDir⟩
               · have hbl : v.bound ≤ s.fat.length := by
@@ -765,7 +780,8 @@ theorem makedir_good {v : Vol} {count : Nat} (hv : VolOK v count) {s : St} (h : 
               have := (updateDir_inv hv (hx.congr rfl rfl rfl)
                 ((hloc_of_locAt hl hpd).mono (fun d hd _ => List.mem_append_left _ hd)) hu).1
               exact ⟨flush_inv this, fun hs => absurd hs (not_soft_ok _),
-                fun hs => sync_flush_update hs (by rfl) hu (others_append s.nodes ⟨dir ++ [k], ploc.id, k, true, r.clusters, 0, slots⟩ ploc.id rfl)⟩
+                fun hs => sync_flush_update hs (by rfl) hu (others_append s.nodes ⟨dir ++ [k], ploc.id, k, true, r.clusters, 0, slots⟩ ploc.id rfl),
+                fun hsh => (shape_updateDir hu hpd (shape_append (n := ⟨dir ++ [k], ploc.id, k, true, r.clusters, 0, slots⟩) hsh (fun hf => by cases hf)) : ShapeNodes v.bpc s2.nodes)⟩
 
 /-- the directory part of a resolving path is a directory of the tree, different from the entry itself -/
 theorem parent_loc {nodes : List Node} (h : TreeInv nodes) {dir : List Nat} {k : Nat} {n : Node} {ploc : Loc}
@@ -851,16 +867,22 @@ theorem removedir_good {v : Vol} {count : Nat} (hv : VolOK v count) {s : St} (h 
 theorem replace_then_update {v : Vol} {count : Nat} {s : St} (h : Inv v count s) (f f' : Node) (hf : f ∈ s.nodes)
     (hfd : f.isDir = false) (hs' : SameSkel f' f) (s1 : St) (e2 : s1.rootChain = s.rootChain) (e3 : s1.nodes = s.nodes)
     (hrep : FatRep v.p count s1.fat (opt f'.chain ++ own s.rootChain (s.nodes.erase f)))
-    (ploc : Loc) (hloc : HLoc s.nodes ploc) (e4 : s1.disk = s.disk) (hpar : f.parent = ploc.id) :
-    ∃ s2, updateDir v s1 (replaceNode s1.nodes f f') ploc = .ok s2 ∧ Inv v count (flush s2) ∧ (Sync s → Sync (flush s2)) := by
+    (ploc : Loc) (hloc : HLoc s.nodes ploc) (e4 : s1.disk = s.disk) (hpar : f.parent = ploc.id)
+    (hsf : ShapeNodes v.bpc s.nodes → Shape v.bpc f') :
+    ∃ s2, updateDir v s1 (replaceNode s1.nodes f f') ploc = .ok s2 ∧ Inv v count (flush s2) ∧ (Sync s → Sync (flush s2)) ∧
+      (ShapeNodes v.bpc s.nodes → ShapeNodes v.bpc (flush s2).nodes) := by
   have hfd' : ∀ d, d ∈ s.nodes → d.isDir = true → d ≠ f := by
     intro d _ hdd e; rw [e, hfd] at hdd; cases hdd
   have hx := invX_replace_file h f f' hf hfd hs' s1.fat s1.hint hrep
   rw [updateDir_irrel, e3]
   have hx' : InvX v count { s1 with nodes := replaceNode s.nodes f f' } none [] := hx.congr rfl e2 rfl
   have hloc' : HLoc (replaceNode s.nodes f f') ploc := hloc.mono (fun d hd hdd => mem_replace_of hd (hfd' d hd hdd))
-  obtain ⟨s2, hu, hi2, _, _, _, _⟩ := updateDir_fits_good hx' hloc'
-  exact ⟨s2, hu, flush_inv hi2, fun hs => sync_flush_update hs e4 hu (others_replace _ _ _ _ hpar (by rw [hs'.2.1]; exact hpar))⟩
+  obtain ⟨s2, hu, hi2, _, _, _, en, _⟩ := updateDir_fits_good hx' hloc'
+  refine ⟨s2, hu, flush_inv hi2, fun hs => sync_flush_update hs e4 hu (others_replace _ _ _ _ hpar (by rw [hs'.2.1]; exact hpar)), ?_⟩
+  intro hsh
+  simp only [flush]
+  rw [en]
+  exact shape_replace hsh (fun _ => hsf hsh)
 
 theorem fwrite_good {v : Vol} {count : Nat} (hv : VolOK v count) {s : St} (h : Inv v count s)
     (path : List Nat) (pos n : Nat) : Good v count s (fwrite v s path pos n) := by
@@ -881,18 +903,23 @@ theorem fwrite_good {v : Vol} {count : Nat} (hv : VolOK v count) {s : St} (h : I
         obtain ⟨hf, _⟩ := resolve_node h.tree _ f hrn
         obtain ⟨_, hpd, hl, hpar⟩ := parent_loc h.tree hrn hrp
         split
-        · exact ⟨flush_inv h, fun _ => ⟨rfl, rfl⟩, sync_flush⟩
+        · exact ⟨flush_inv h, fun _ => ⟨rfl, rfl⟩, sync_flush, fun hsh => hsh⟩
         · rename_i hn0
           split
-          · exact ⟨flush_inv h, fun _ => ⟨rfl, rfl⟩, sync_flush⟩
+          · exact ⟨flush_inv h, fun _ => ⟨rfl, rfl⟩, sync_flush, fun hsh => hsh⟩
           · rename_i fat hint chain hw
             have hrep := writeChain_rep hv (fatRep_perm (own_erase s.rootChain hf) (by simpa using h.rep)) (by omega) hw
-            obtain ⟨s2, hu, hi2, hsy⟩ := replace_then_update h f { f with chain := chain, size := max f.size (min pos f.size + n) } hf hfd'
+            obtain ⟨s2, hu, hi2, hsy, hshp⟩ := replace_then_update h f { f with chain := chain, size := max f.size (min pos f.size + n) } hf hfd'
               ⟨rfl, rfl, rfl, rfl, rfl, fun hd => by rw [hfd'] at hd; cases hd⟩
               { s with fat := fat, hint := hint } rfl rfl hrep ploc (hloc_of_locAt hl hpd) rfl hpar
+              (fun hsh => by
+                have hb0 : 0 < v.bpc := by have := hv.bpc; omega
+                obtain ⟨h1, h2⟩ := writeChain_len hv.params hv.bound hb0
+                  (fatRep_perm (own_erase s.rootChain hf) (by simpa using h.rep)) (hsh f hf hfd') (by omega) hw
+                exact Or.inr ⟨h1, h2⟩)
             simp only at hu ⊢
             rw [hu]
-            exact ⟨hi2, fun hs => absurd hs (not_soft_ok _), hsy⟩
+            exact ⟨hi2, fun hs => absurd hs (not_soft_ok _), hsy, hshp⟩
     · exact good_same h _
     · exact good_same h _
 
@@ -926,16 +953,27 @@ theorem ftrunc_good {v : Vol} {count : Nat} (hv : VolOK v count) {s : St} (h : I
         · -- grow
           rename_i hgt
           split
-          · exact ⟨flush_inv h, fun _ => ⟨rfl, rfl⟩, sync_flush⟩
+          · exact ⟨flush_inv h, fun _ => ⟨rfl, rfl⟩, sync_flush, fun hsh => hsh⟩
           · rename_i fat hint chain hw
             have hrep := writeChain_rep hv hown (by omega) hw
-            obtain ⟨s2, hu, hi2, hsy⟩ := replace_then_update h f { f with chain := chain, size := m } hf hfd'
+            obtain ⟨s2, hu, hi2, hsy, hshp⟩ := replace_then_update h f { f with chain := chain, size := m } hf hfd'
               ⟨rfl, rfl, rfl, rfl, rfl, fun hd => by rw [hfd'] at hd; cases hd⟩
               { s with fat := fat, hint := hint } rfl rfl hrep ploc (hloc_of_locAt hl hpd) rfl hpar
+              (fun hsh => by
+                have hb0 : 0 < v.bpc := by have := hv.bpc; omega
+                obtain ⟨h1, h2⟩ := writeChain_len hv.params hv.bound hb0 hown (hsh f hf hfd') (by omega) hw
+                refine Or.inr ⟨h1, ?_⟩
+                have : max f.size (min f.size f.size + (m - f.size)) = m := by
+                  rw [Nat.min_self]; omega
+                rw [this] at h2
+                exact h2)
             simp only at hu ⊢
             rw [hu]
-            exact ⟨hi2, fun hs => absurd hs (not_soft_ok _), hsy⟩
+            exact ⟨hi2, fun hs => absurd hs (not_soft_ok _), hsy, hshp⟩
         · -- shrink or same size
+          rename_i hngt
+          have hb0 : 0 < v.bpc := by have := hv.bpc; omega
+          have hmle : m ≤ f.size := by omega
           by_cases hcut : m < f.size ∧ max 1 (numClus v.bpc m) < f.chain.length
           · simp only [hcut, and_self, ↓reduceIte]
             have hk1 : 1 ≤ max 1 (numClus v.bpc m) := Nat.le_max_left _ _
@@ -954,19 +992,25 @@ theorem ftrunc_good {v : Vol} {count : Nat} (hv : VolOK v count) {s : St} (h : I
                 rw [opt_of_ne hcne] at hown
                 exact hown
               have hrep := split_preserves hv.params hown' l hgl
-              obtain ⟨s2, hu, hi2, hsy⟩ := replace_then_update h f
+              obtain ⟨s2, hu, hi2, hsy, hshp⟩ := replace_then_update h f
                 { f with chain := List.take (max 1 (numClus v.bpc m)) f.chain, size := m } hf hfd'
                 ⟨rfl, rfl, rfl, rfl, rfl, fun hd => by rw [hfd'] at hd; cases hd⟩
                 (flush { s with fat := (freeList v.p.cv.free s.fat (List.drop (max 1 (numClus v.bpc m)) f.chain)).set l v.p.cv.eocMax,
                                 hint := lowerHint s.hint (List.drop (max 1 (numClus v.bpc m)) f.chain) }) rfl rfl
                 (by rw [opt_of_ne hkne]; exact hrep) ploc (hloc_of_locAt hl hpd) rfl hpar
+                (fun hsh => by
+                  have := trunc_len v.bpc hb0 f m (hsh f hf hfd') hmle
+                  simpa only [hcut, and_self, ↓reduceIte] using this)
               rw [hu]
-              exact ⟨hi2, fun hs => absurd hs (not_soft_ok _), hsy⟩
+              exact ⟨hi2, fun hs => absurd hs (not_soft_ok _), hsy, hshp⟩
           · simp only [hcut, ↓reduceIte]
-            obtain ⟨s2, hu, hi2, hsy⟩ := replace_then_update h f { f with chain := f.chain, size := m } hf hfd'
+            obtain ⟨s2, hu, hi2, hsy, hshp⟩ := replace_then_update h f { f with chain := f.chain, size := m } hf hfd'
               ⟨rfl, rfl, rfl, rfl, rfl, fun hd => by rw [hfd'] at hd; cases hd⟩ s rfl rfl hown ploc (hloc_of_locAt hl hpd) rfl hpar
+              (fun hsh => by
+                have := trunc_len v.bpc hb0 f m (hsh f hf hfd') hmle
+                simpa only [hcut, ↓reduceIte] using this)
             rw [hu]
-            exact ⟨hi2, fun hs => absurd hs (not_soft_ok _), hsy⟩
+            exact ⟨hi2, fun hs => absurd hs (not_soft_ok _), hsy, hshp⟩
     · exact good_same h _
     · exact good_same h _
 
@@ -998,6 +1042,16 @@ theorem run_sync {v : Vol} {count : Nat} (hv : VolOK v count) (ops : List Op) :
   | cons op rest ih =>
     intro s h hs
     simp only [run, List.foldl_cons]
-    exact ih _ (step_good hv h op).1 ((step_good hv h op).2.2 hs)
+    exact ih _ (step_good hv h op).1 ((step_good hv h op).2.2.1 hs)
+
+/-- every file's chain has exactly the clusters its size needs, after every call of every history -/
+theorem run_shape {v : Vol} {count : Nat} (hv : VolOK v count) (ops : List Op) :
+    ∀ s : St, Inv v count s → ShapeNodes v.bpc s.nodes → ShapeNodes v.bpc (run v s ops).nodes := by
+  induction ops with
+  | nil => intro s _ hs; exact hs
+  | cons op rest ih =>
+    intro s h hs
+    simp only [run, List.foldl_cons]
+    exact ih _ (step_good hv h op).1 ((step_good hv h op).2.2.2 hs)
 
 end Proofs.FsInv
